@@ -119,6 +119,12 @@ pub fn view(g: &G, o: &mut Out) {
 }
 
 pub fn snapshot(g: &G, o: &mut Out) {
+    snapshot_k(g, o, 0)
+}
+
+/// `off` = 1000 when the row order of the adjacency vectors depends on hash iteration
+/// (derived graphs are rebuilt from `get_all_edges()`), so that the driver sorts them.
+pub fn snapshot_k(g: &G, o: &mut Out, off: i64) {
     view(g, o);
     let s = g.verif_snapshot();
     let rows: Vec<Vec<i64>> = s.nodes_map.iter().map(|(k, v)| vec![*k, *v as i64]).collect();
@@ -195,10 +201,10 @@ pub fn snapshot(g: &G, o: &mut Out) {
         }
         rows
     };
-    o.obs(16, &adj_vec(&s.successors_vec), &[]);
+    o.obs(16 + off, &adj_vec(&s.successors_vec), &[]);
     o.obs(1017, &name_map(&s.predecessors), &[]);
     o.obs(1018, &idx_map(&s.predecessors_map), &[]);
-    o.obs(19, &adj_vec(&s.predecessors_vec), &[]);
+    o.obs(19 + off, &adj_vec(&s.predecessors_vec), &[]);
 }
 
 fn edges_obs(kind: i64, r: Option<Result<Vec<&E>, graphrs::Error>>, o: &mut Out) {
@@ -469,7 +475,8 @@ pub fn query(g: &G, t: &mut Toks, o: &mut Out) {
         }
         "density" => match guard(|| g.get_density()) {
             None => o.obs(1, &[vec![PANIC]], &[]),
-            Some(d) => o.obs(142, &[], &[d]),
+            Some(d) if d.is_finite() => o.obs(142, &[], &[d]),
+            Some(_) => o.obs(142, &[vec![-1]], &[]),
         },
         "degree_centrality" => {
             match guard(|| graphrs::algorithms::centrality::degree::degree_centrality(g)) {
@@ -504,7 +511,7 @@ pub fn query(g: &G, t: &mut Toks, o: &mut Out) {
                 Some(h) => {
                     o.obs(1, &[vec![0]], &[]);
                     spec_obs(&h, o);
-                    snapshot(&h, o);
+                    snapshot_k(&h, o, 1000);
                 }
             }
         }
@@ -513,7 +520,7 @@ pub fn query(g: &G, t: &mut Toks, o: &mut Out) {
             o.obs(1, &[vec![res_code(&r)]], &[]);
             if let Some(Ok(h)) = r {
                 spec_obs(&h, o);
-                snapshot(&h, o);
+                snapshot_k(&h, o, 1000);
             }
         }
         "set_all_edge_weights" => {
@@ -523,7 +530,7 @@ pub fn query(g: &G, t: &mut Toks, o: &mut Out) {
                 Some(h) => {
                     o.obs(1, &[vec![0]], &[]);
                     spec_obs(&h, o);
-                    snapshot(&h, o);
+                    snapshot_k(&h, o, 1000);
                 }
             }
         }
@@ -532,7 +539,7 @@ pub fn query(g: &G, t: &mut Toks, o: &mut Out) {
             o.obs(1, &[vec![res_code(&r)]], &[]);
             if let Some(Ok(h)) = r {
                 spec_obs(&h, o);
-                snapshot(&h, o);
+                snapshot_k(&h, o, 1000);
             }
         }
         _ => {
@@ -619,6 +626,10 @@ pub fn mutate(g: &mut G, specs: &GraphSpecs, op: &str, t: &mut Toks, o: &mut Out
         }
     };
     o.obs(1, &[vec![code]], &[]);
+    if code != PANIC {
+        // kind 5 is the model's "spec layer agrees" flag; the implementation side is constant
+        o.obs(5, &[vec![1]], &[]);
+    }
     code != PANIC
 }
 
